@@ -49,7 +49,7 @@ LEVEL_NOTE = ('Trusted: NumPy long-double arithmetic, Hypothesis, the '
               'whose products do not overflow the dtype; array weights '
               'strictly positive; sizes >= 1.')
 DESIGN_REF = 'DESIGN.md section 5, C02'
-BUDGET = {'quick': 6000, 'thorough': 100000}
+BUDGET = {'quick': 6000, 'thorough': 60000}
 TOLERANCES = {
     'formula': '|got - ref| <= (4 N + 64) * eps * M with N = number of scalar '
                'entries, eps = machine epsilon of the narrowest component '
